@@ -890,6 +890,8 @@ class LangServer:
         is_member = False
         try:
             sub_name, arg_strings, sub_end = get_sub_name(line_prefix)
+            if sub_name is None:
+                return None
             var_stack = get_var_stack(sub_name)
             is_member = len(var_stack) > 1
         except (TypeError, AttributeError):
